@@ -2,7 +2,7 @@
 EXTENDS MCInfoLib
 
 \* ---- Fields corpus ---------------------------------------------------------------------------
-FieldsParams == { [kind |-> n, v |-> v, pos |-> pos] : n \in InfoKindNames \ {"end"}, v \in {0, 1, 2, 3}, pos \in {0, 1} }
+FieldsParams == { [kind |-> n, v |-> v, pos |-> pos] : n \in InfoKindNames \ {"end"}, v \in {0, 1, 2, 3, 4}, pos \in {0, 1} }
 FieldsCase(p) ==
   [mem |-> InfoImage(IF p.pos = 0 THEN <<ConformantTag(p.kind, p.v), Neighbour>>
                      ELSE <<Neighbour, ConformantTag(p.kind, p.v)>>),
